@@ -396,13 +396,24 @@ def r05_4(c, R, spec, ctx):
         R.inst(rid, "walker:cycle-check-dominates-enqueue", ("atom", "contains($wpath, $v)", False) in g, sp=inode["sp"], got=g,
                expect="if path.contains(&v) { bail!(loop) } before the successor is enqueued",
                detail="without it a cyclic directory makes resolve loop forever instead of reporting an error")
+        skips = []
+        for e in pe2.trace:
+            if e["kind"] == "guard" and e.get("canon") == ("atom", "contains($wpath, $v)", False):
+                break
+            if e["kind"] == "skip":
+                skips.append(e["canon"])
+        R.inst(rid, "walker:cycle-check-for-every-successor", bool(g) and g[0] == ("atom", "contains($wpath, $v)", False) and not skips, sp=inode["sp"],
+               got={"guards": g, "skips-before-the-check": skips},
+               expect="the cycle check is the first condition evaluated for a successor (no skip/continue before it)",
+               detail="a successor that is skipped before `path.contains(&v)` is tested (e.g. 'already visited') hides every cycle through it: "
+                      "the directory is then resolved arbitrarily instead of being reported as malformed")
         ext = [e for e in pe2.trace if e["kind"] == "call" and e["name"] in ("push", "push_back") and [T.show(x) for x in e["args"]] == ["$wpath", "$v"]
                and e["cond"] == 0]
         newp = pushes[0]["args"][1][1][0] if pushes[0]["args"][1][0] == "t" else None
         R.inst(rid, "walker:path-extended-by-successor", len(ext) == 1 and newp == S("wpath"), sp=inode["sp"],
                got={"push": [[T.show(x) for x in e["args"]] for e in ext], "enqueued-path": showv(newp)},
                expect="let mut path = path.clone(); path.push(v);")
-    R.floor(rid, 9)
+    R.floor(rid, 10)
 
 
 # ------------------------------------------------------------------------------------ R05.5
